@@ -119,7 +119,8 @@ Import DiskRun.
 Theorem C09_disk_revolve_terminates :
   forall N ram disk uf ub wd rd : Z,
          1 <= N ->
-         1 <= ram ->
+         0 <= ram ->
+         (2 <= N -> 1 <= ram) ->
          exists (L : list Ops.op) (K : nat),
            RevConv.sequence RevConv.KDiskRevolve N ram disk uf ub wd rd = Actions.Ok L /\
            (forall k : nat,
@@ -142,7 +143,8 @@ Import DiskRun.
 Theorem C09_periodic_terminates :
   forall N ram disk uf ub wd rd : Z,
          1 <= N ->
-         1 <= ram ->
+         0 <= ram ->
+         (2 <= N -> 1 <= ram) ->
          exists (L : list Ops.op) (K : nat),
            RevConv.sequence RevConv.KPeriodic N ram disk uf ub wd rd = Actions.Ok L /\
            (forall k : nat,
@@ -165,7 +167,8 @@ Import HRevTop.
 Theorem C09_hrevolve_terminates :
   forall N ram disk uf ub wd rd : Z,
          1 <= N ->
-         1 <= ram ->
+         0 <= ram ->
+         (2 <= N -> 1 <= ram) ->
          0 <= disk ->
          exists (L : list Ops.op) (K : nat),
            RevConv.sequence RevConv.KHRevolve N ram disk uf ub wd rd = Actions.Ok L /\
